@@ -101,6 +101,9 @@ func (c *conn) rangeAndClean(f func(index int, resultChan chan data)) {
 }
 
 func (c *conn) Transport(ctx context.Context, request []byte) (response []byte, err error) {
+	if len(request) > maxBodyLength {
+		return nil, core.ErrRequestEntityTooLarge
+	}
 	index := int(atomic.AddInt32(&c.counter, 1) & 0x7fff)
 	resultChan := make(chan data, 1)
 	c.store(index, resultChan)
